@@ -16,7 +16,10 @@ mod gen;
 pub struct C15;
 pub const CHECK: C15 = C15;
 pub fn plan(t: Tier) -> vcore::Plan {
-    vcore::Plan::new(t.pick(4_000, 80_000), 1600)
+    // tape shrinking is cheap to skip here: the structural shrinker (`simplify_at`) does the minimisation
+    let mut p = vcore::Plan::new(t.pick(4_000, 80_000), 1600);
+    p.max_shrink_iters = 40;
+    p
 }
 
 /// text-shape classes (a shape piece / statement belongs to exactly one; crlf, tabs and trailing-ws are flags)
@@ -380,6 +383,7 @@ pub fn probe(case: &Case) -> Probe {
     }
     match compile(&tw.project) {
         Outcome::Accepted(_) => {}
+        Outcome::Rejected { errors, .. } if errors.is_empty() => return Probe::TwinRejected(String::new()),
         Outcome::Rejected { errors, .. } => {
             let e = &errors[0];
             return Probe::TwinRejected(format!(
@@ -397,6 +401,7 @@ pub fn probe(case: &Case) -> Probe {
     match compile(&r.project) {
         Outcome::Accepted(_) => Probe::NotAnError,
         Outcome::Panicked { location, .. } => Probe::Panic(location),
+        Outcome::Rejected { errors, .. } if errors.is_empty() => Probe::Panic("rejected with an empty error list".into()),
         Outcome::Rejected { errors, .. } => {
             let first = errors[0].clone();
             let file_ok = first.file.as_deref() == Some(r.exp_file.as_str());
